@@ -108,6 +108,89 @@ fn state_json(st: &PiState, regs: &[Variable], ids: &mut Vec<Value>) -> Value {
     Value::Object(m)
 }
 
+
+/// `Data` with identifiers numbered by a given table (positions in `Ord` order)
+fn enc_data_tab(d: &Data, tab: &[AbstractIdentifier]) -> Value {
+    let idx = |id: &AbstractIdentifier| tab.iter().position(|x| x == id).map(|p| p as i64).unwrap_or(-1);
+    let rel: Vec<Value> = d.get_relative_values().iter().map(|(id, t)| json!([idx(id), enc_iv(t)])).collect();
+    json!({"size": u64::from(d.bytesize()), "rel": rel, "abs": d.get_absolute_value().map(enc_iv), "top": d.contains_top()})
+}
+
+fn ids_of_state(st: &PiState, vars: &[Variable], acc: &mut BTreeSet<AbstractIdentifier>) {
+    acc.insert(st.stack_id.clone());
+    acc.insert(st.get_global_mem_id());
+    for v in vars {
+        acc.extend(st.get_register(v).referenced_ids().cloned());
+    }
+    for (id, obj) in st.memory.iter() {
+        acc.insert(id.clone());
+        acc.extend(obj.get_referenced_ids_overapproximation().iter().cloned());
+        for (_off, d) in obj.get_mem_region().iter() {
+            acc.extend(d.referenced_ids().cloned());
+        }
+    }
+}
+
+fn enc_state_tab(st: &PiState, vars: &[Variable], tab: &[AbstractIdentifier]) -> Value {
+    let idx = |id: &AbstractIdentifier| tab.iter().position(|x| x == id).map(|p| p as i64).unwrap_or(-1);
+    let mut regs = Vec::new();
+    for v in vars {
+        let d = st.get_register(v);
+        if !d.is_top() {
+            regs.push(json!([v.name, u64::from(v.size), enc_data_tab(&d, tab), v.is_temp]));
+        }
+    }
+    let objs: Vec<Value> = st
+        .memory
+        .iter()
+        .map(|(id, obj)| {
+            let cells: Vec<Value> = obj.get_mem_region().iter().map(|(off, d)| json!([off, enc_data_tab(d, tab)])).collect();
+            let targets: Vec<i64> = obj.get_referenced_ids_overapproximation().iter().map(idx).collect();
+            json!([idx(id), obj.is_unique(), cells, targets])
+        })
+        .collect();
+    json!({"regs": regs, "objs": objs})
+}
+
+/// all variables a state of the function may bind: the register set and every variable of the program text
+fn program_vars(p: &Project) -> Vec<Variable> {
+    let mut set: BTreeSet<Variable> = p.register_set.iter().cloned().collect();
+    let mut add = |e: &Expression, set: &mut BTreeSet<Variable>| {
+        for v in e.input_vars() {
+            set.insert(v.clone());
+        }
+    };
+    for sub in p.program.term.subs.values() {
+        for blk in &sub.term.blocks {
+            for d in &blk.term.defs {
+                match &d.term {
+                    Def::Assign { var, value } => {
+                        set.insert(var.clone());
+                        add(value, &mut set);
+                    }
+                    Def::Load { var, address } => {
+                        set.insert(var.clone());
+                        add(address, &mut set);
+                    }
+                    Def::Store { address, value } => {
+                        add(address, &mut set);
+                        add(value, &mut set);
+                    }
+                }
+            }
+            for j in &blk.term.jmps {
+                match &j.term {
+                    Jmp::CBranch { condition, .. } => add(condition, &mut set),
+                    Jmp::BranchInd(e) | Jmp::Return(e) => add(e, &mut set),
+                    Jmp::CallInd { target, .. } => add(target, &mut set),
+                    _ => {}
+                }
+            }
+        }
+    }
+    set.into_iter().collect()
+}
+
 // ------------------------------------------------------------------------------------------
 // generator
 
@@ -773,6 +856,46 @@ fn eval_pi(project: &Project) -> Value {
             let e = blocks.entry(format!("{}", blk.tid)).or_insert_with(|| json!({"S": null, "E": null}));
             e[which] = v;
         }
+        // the full states (registers incl. temporaries, all memory objects) for the post-fixpoint check of the model
+        // transfer; identifiers numbered by their `Ord` position in the table of all identifiers that occur
+        let vars = program_vars(&p);
+        let mut idset: BTreeSet<AbstractIdentifier> = BTreeSet::new();
+        let mut node_states: Vec<(String, &'static str, &PiState)> = Vec::new();
+        for node in g.node_indices() {
+            let (blk, which) = match g[node] {
+                Node::BlkStart(blk, _) => (blk, "S"),
+                Node::BlkEnd(blk, _) => (blk, "E"),
+                _ => continue,
+            };
+            if let Some(NodeValue::Value(st)) = pi.get_node_value(node) {
+                ids_of_state(st, &vars, &mut idset);
+                node_states.push((format!("{}", blk.tid), which, st));
+            }
+        }
+        let tab: Vec<AbstractIdentifier> = idset.into_iter().collect();
+        let mut full_nodes = serde_json::Map::new();
+        let (mut sid, mut gidx) = (-1i64, -1i64);
+        for (tid_s, which, st) in &node_states {
+            let e = full_nodes.entry(tid_s.clone()).or_insert_with(|| json!({"S": null, "E": null}));
+            e[*which] = enc_state_tab(st, &vars, &tab);
+            sid = tab.iter().position(|x| *x == st.stack_id).map(|x| x as i64).unwrap_or(-1);
+            gidx = tab.iter().position(|x| *x == st.get_global_mem_id()).map(|x| x as i64).unwrap_or(-1);
+        }
+        let globals: Vec<u64> = fs
+            .get(&Tid::new("f0"))
+            .map(|s| {
+                s.global_parameters
+                    .keys()
+                    .filter_map(|l| match l {
+                        AbstractLocation::GlobalAddress { address, .. } | AbstractLocation::GlobalPointer(address, _) => Some(*address),
+                        _ => None,
+                    })
+                    .collect::<BTreeSet<u64>>()
+                    .into_iter()
+                    .collect()
+            })
+            .unwrap_or_default();
+        let full = json!({"nodes": full_nodes, "sid": sid, "gid": gidx, "globals": globals});
         let (logs, warnings) = &pi.collected_logs;
         let stab = !logs.iter().any(|l| l.text.contains("Fixpoint did not stabilize"));
         let nullw: BTreeSet<String> = warnings
@@ -784,7 +907,7 @@ fn eval_pi(project: &Project) -> Value {
             .get(&Tid::new("f0"))
             .map(|s| s.parameters.keys().map(|l| format!("{}", l)).collect())
             .unwrap_or_default();
-        json!({"blocks": blocks, "ids": ids, "stab": stab, "nullw": nullw, "sig": sig})
+        json!({"blocks": blocks, "ids": ids, "stab": stab, "nullw": nullw, "sig": sig, "full": full})
     });
     match r {
         Ok(v) => v,
@@ -2280,7 +2403,7 @@ fn main() {
         return;
     }
     let mut rng = Rng::new(args.seed);
-    let n = args.num("programs", 800, 30000);
+    let n = args.num("programs", 800, 24000);
     let n_seeds = args.num("runs", 6, 10);
     for _ in 0..n {
         let project = gen_project(&mut rng, &mut out);
@@ -2311,11 +2434,11 @@ fn main() {
     for _ in 0..n_sc {
         gen_sc(&mut rng, &mut out, pi);
     }
-    let n_mg = args.num("merges", 2000, 40000);
+    let n_mg = args.num("merges", 2000, 30000);
     for _ in 0..n_mg {
         gen_mg(&mut rng, &mut out, pi);
     }
-    let n_cs = args.num("calls", 1500, 30000);
+    let n_cs = args.num("calls", 1500, 20000);
     for _ in 0..n_cs {
         gen_cs(&mut rng, &mut out, pi);
     }
